@@ -327,8 +327,8 @@ var setterValues = map[string][]string{
 	"username": {"", "u", "a b", "a:b", "a@b", "é", "%41", "/", "?#", "user", "U", "a%zz"},
 	"password": {"", "p", "a b", "a:b", "a@b", "é", "%41", "/", "?#", "pw"},
 	"host": {"h.com", "H.COM:8080", "h.com:80", "h.com:443", "h.com:21", "h.com:", "x/y", "a@b", "", ":81", "h:99999", "h:0", "h:00080", "é.com", "[::1]", "[::1]:81", "[::1",
-		"a b", "a?b", "a#b", "h.com:81:82", "xn--é", "a..b", "h.com:abc", "[::A]:443", "Ü.de", "h.com:65535", "h.com:65536", "a:b", "%41.com", "a%2Fb", "h::", "h:::", "ÑANDÚ.es:81", "ΑΒΓ.gr"},
-	"hostname": {"h.com", "H", "", "a:b", "x/y", "é.de", "[::2]", "a@b", "a b", "g.org", "xn--é", "a?b", "a#b", "%41", "Ü.de", "ŒUVRE.fr", "ДОМ.рф"},
+		"a b", "a?b", "a#b", "h.com:81:82", "xn--é", "a..b", "h.com:abc", "[::A]:443", "Ü.de", "h.com:65535", "h.com:65536", "xn--0.com", "www.xn--999999999.example", "xn--0.com:81", "xn--a", "a:b", "%41.com", "a%2Fb", "h::", "h:::", "ÑANDÚ.es:81", "ΑΒΓ.gr"},
+	"hostname": {"h.com", "H", "", "a:b", "x/y", "é.de", "[::2]", "a@b", "a b", "g.org", "xn--é", "xn--0.com", "www.xn--999999999.example", "xn--a", "a?b", "a#b", "%41", "Ü.de", "ŒUVRE.fr", "ДОМ.рф"},
 	"port":     {"", "80", "443", "21", "8080", "0", "65535", "65536", "99999", "8080abc", "abc", " 81", "-1", "+5", "1e3", "81", "00080", "080", "8 0"},
 	"pathname": {"", "/", "a", "/a/b", "a b", "/a/../b/", "/a/./b/.", "..", "a?b", "a#b", "é", "%41", "%zz", "//x", "/a//b", "\\x", "/x/", "/a/b/..", "a/", "/%2e%2e/x", "/;p", "/a:b", "*"},
 	"search":   {"", "?", "a=1", "?a=1", "??a=1", "a=1&b=2", "a b", "é=ü", "#x", "a=1#f", "%zz", "a='b'", "&&", "=", "a=%41", "?x=y&x=z", "a+b=c", "?%26=%3D", "a=\"b\"", "a=<b>"},
